@@ -534,9 +534,14 @@ fn scenario(v: Victim, point: &'static str, nth: u32, i: Intruder, state: u64, s
         if v_done.load(Ordering::SeqCst) && i_done.load(Ordering::SeqCst) {
             break;
         }
-        if t1.elapsed() > Duration::from_secs(30) {
+        // under Miri the clock is virtual and there is no /proc: Miri reports real deadlocks itself
+        if !cfg!(miri) && t1.elapsed() > Duration::from_secs(30) {
             std::thread::sleep(Duration::from_secs(3));
             let after = thread_cpu_ticks();
+            if after.is_empty() || before.is_empty() {
+                out.inconclusive = Some(format!("scenario {v:?}@{point} x {i:?} did not finish within the watchdog and per-thread CPU times are not available"));
+                return out;
+            }
             let progressed = after.iter().any(|(t, c)| before.get(t).map(|b| c > b).unwrap_or(false));
             if !progressed && !(v_done.load(Ordering::SeqCst) && i_done.load(Ordering::SeqCst)) {
                 out.violation = Some(format!(
